@@ -98,15 +98,12 @@ func (e *env) crashImageAt(ck *ckpt, k int) {
 // waitDB: restored databases enqueue their flushes on the process-global task queues; they must
 // be drained before the primary parks a task again.
 func (e *env) waitDB(db *dkv.DB) {
-	done := make(chan error, 1)
-	go func() { done <- db.WaitOnTasks() }()
-	select {
-	case err := <-done:
-		if err != nil {
-			e.c.Fail("background-task-error", e.wit(), "restored db: WaitOnTasks: %v", err)
-		}
-	case <-time.After(watchdog):
+	idle, err := lib.WaitDB(db, watchdog)
+	if !idle {
 		e.c.Inconclusive("restored db tasks did not finish within the watchdog")
+	}
+	if err != nil {
+		e.c.Fail("background-task-error", e.wit(), "restored db: WaitOnTasks: %v", err)
 	}
 }
 
